@@ -593,6 +593,7 @@ func (e *Exec) mapUpdate(mv, key, val Value) {
 		if m == nil {
 			e.fault("assignment to entry in nil map")
 		}
+		e.noteGlobalMapWrite(m)
 		if en := e.mapFind(m, key); en != nil {
 			en.v = copyVal(val)
 			return
@@ -617,6 +618,20 @@ func (e *Exec) mapUpdate(mv, key, val Value) {
 	panic(fmt.Sprintf("mapUpdate on %T", mv))
 }
 
+// noteGlobalMapWrite records an insert/update/delete on a map reachable from package-level state (C18 monitor).
+func (e *Exec) noteGlobalMapWrite(m *MapV) {
+	if e.globalMaps == nil {
+		return
+	}
+	if name, ok := e.globalMaps[m]; ok {
+		where := name + " (map) written in " + e.curFnName()
+		e.res.mu.Lock()
+		e.res.GlobalWrites[where]++
+		e.res.mu.Unlock()
+		e.globalWriteSeen = append(e.globalWriteSeen, where)
+	}
+}
+
 func (e *Exec) mapDelete(mv, key Value) {
 	m, ok := mv.(*MapV)
 	if !ok {
@@ -633,6 +648,7 @@ func (e *Exec) mapDelete(mv, key Value) {
 	if en == nil {
 		return
 	}
+	e.noteGlobalMapWrite(m)
 	if ck, ok := concKey(en.k); ok {
 		delete(m.conc, ck)
 	} else {
